@@ -57,6 +57,7 @@ F_LIST = "C15-list-item-target-in-dump"
 F_SELF = "C15-self-link"
 F_NESTED = "C15-nested-chain"
 F_SKIPPED = "C15-skipped-link-target-dropped"
+F_EMPTYSUB = "C15-subcommand-section-emptied"
 ENV_PREFIX = "C15"
 
 # ---------------------------------------------------------------- generated module (real file, removed at exit)
@@ -670,6 +671,8 @@ def oracle(case, deep=True):
                 if fmt == "yaml":
                     text = out
                 d = sub_dict(spec, d if isinstance(d, dict) else {})
+                if fmt == "yaml" and spec.get("sub") and not d and links and set_attr is None:
+                    set_attr = F_EMPTYSUB   # every entry of the subcommand section was a link target: `fit: {}` is dumped
                 for l in links:
                     path_hit, item_hit = in_dump(l, d, root)
                     if path_hit:
